@@ -555,7 +555,7 @@ func TestVerifReplay(t *testing.T) {
 		}()
 		select {
 		case <-done:
-		case <-time.After(20 * time.Second):
+		case <-time.After(60 * time.Second):
 			fmt.Println("VERIF-HANG")
 		}
 		for k := range verifReached() {
